@@ -200,6 +200,25 @@ def run(ctx):
     if ctx.model:
         model, _ = core.run_tool(ctx.model, ['c20', 'obs', path])
         model = [l for l in model if l]
+    # an interval of 0 seconds (hold time 0, the keepalive timer of a hold time below 3) is outside the model (0 < interval): on
+    # the pinned code tokio's interval(0) panics inside the spawned task and such a timer never ticks.  The statement itself still
+    # applies - no tick while stopped - and is checked on the implementation's histories alone.
+    zero = [c for c in cases if len(c) <= 3] + [['s', 'x', 'w2600'], ['s', 'a50', 'x', 'a50', 'w500'], ['s', 'w100', 'x', 'w100', 's', 'x', 'w100']]
+    zpath = os.path.join(d, 'cases0.txt')
+    with open(zpath, 'w') as f:
+        for ops in zero:
+            f.write('TMR 0 %s\n' % ','.join(ops))
+    zimpl, _ = core.run_tool(ctx.harness, ['c20', 'obs', zpath], timeout=3000)
+    n_zero = 0
+    for l in zimpl:
+        if not l:
+            continue
+        head, _, obs = l.partition(' | ')
+        if obs == 'PANIC':
+            ctx.violation('a timer history panicked', case=head, impl=l)
+            continue
+        n_zero += 1
+        oracle(ctx, head.split()[2].split(','), obs.split(), l, 0)
     n_over = 0
     n_tick = 0
     n_stale = 0
@@ -234,7 +253,7 @@ def run(ctx):
                 'earlier than one interval after the last start or reset' % (4 if ctx.tier == 'quick' else 5),
         'exhaustive': False,
         'input_distribution': {'histories': len(impl), 'ticks_observed': n_tick, 'histories_with_overrun': n_over,
-                               'max_len': max(len(c) for c in cases)},
+                               'max_len': max(len(c) for c in cases), 'zero_interval_histories_oracle_only': n_zero},
     })
     ctx.samples = [l for l in impl if l.count('T@') >= 2][:2] + [l for l in impl if ',x,' in l and 'T@' in l][:2]
 
